@@ -10,6 +10,7 @@ CONSTANTS
   OrphanMetaKept = FALSE
   CorruptIgnoresMeta = TRUE
   MayRelease = TRUE
+  DropBeforeDrain = FALSE
 INVARIANTS Safe HolderOwnsLock LiveResidentKept
 PROPERTIES Usable
 CHECK_DEADLOCK FALSE
